@@ -41,7 +41,10 @@ def gen_case(seed, i):
             if rec:
                 recs[j] = header[:]
                 break
-    return {"recs": recs, "delim": r.choice(DELIMS), "quote": r.choice(QUOTES), "named": use_named_header, "header": header}
+    case = {"recs": recs, "delim": r.choice(DELIMS), "quote": r.choice(QUOTES), "named": use_named_header, "header": header}
+    if r.random() < 0.4:
+        case["reset"] = r.randint(0, 50)
+    return case
 
 
 def case_reader(case):
@@ -84,6 +87,24 @@ def case_reader(case):
     want = [r_ for r_ in recs if r_]
     if out["lines"] != want:
         res["oracle"].append({"what": "returned lines differ from the CSV records", "got": out["lines"], "want": want})
+    if want and case.get("reset") is not None:
+        # a csvpath that takes new headers from a line (reset_headers()) still delivers that line as it is in the file, and its
+        # headers afterwards are the cleaned cells of the line it last took them from
+        import re as _re
+
+        k = case["reset"] % len(want)
+        form = [f"${path}[*][reset_headers()]", f"${path}[*][eq.nocontrib(line_number(), {k}) -> reset_headers()]",
+                f"${path}[*][yes() reset_headers() push(\"c\", count_headers())]"][case["reset"] % 3]
+        o3, p3 = real_run.run_single(form, "collect", delimiter=case["delim"], quotechar=case["quote"], policy=["collect"])
+        if "parse_error" in o3 or o3.get("raised"):
+            res["oracle"].append({"what": "a run with reset_headers() failed", "text": form, "error": o3.get("parse_error") or o3.get("raised")})
+        elif not o3["errors"]:
+            if "->" not in form and o3["lines"] != want:
+                res["oracle"].append({"what": "returned lines differ from the CSV records when the csvpath resets its headers", "text": form,
+                                      "got": o3["lines"], "want": want})
+            if "->" in form and any(ln not in want for ln in o3["lines"]):
+                res["oracle"].append({"what": "a returned line is not a record of the file when the csvpath resets its headers", "text": form,
+                                      "got": o3["lines"], "want": want})
     first = next((r_ for r_ in recs if r_), None)
     m = driver.ask({"op": "headers", "recs": recs, "names": case["header"], "width": 6})
     # headers: cleaned cells of the first non-blank record
